@@ -146,4 +146,29 @@ theorem opStep_blocked {t : Nat} {cells : Nat → Cell} {ptr : Option Ptr} {acc 
         simp [opStep, Facts.guarded, concatAtomicStep, hab, nf]
     · simp [NeedsOp] at hn
 
+/-- a step of thread `u` leaves every list whose mutex another thread holds
+    alone: same owner, same buffer (contents, capacity and generation) -/
+theorem step_frame {F : Facts} (hF : F = Facts.guarded) {u : Nat} {s s' : State}
+    (hinv : Inv s) (h : step F u s = some s') : Frame u s.cells s'.cells := by
+  unfold step at h
+  simp only at h
+  split at h
+  · cases h
+  · split at h
+    · cases h
+    · rename_i op rest hprog
+      split at h
+      · cases h
+      · rename_i o hop
+        have hpc : OpPc s.cells u (s.threads u).ptr op (s.threads u).pc := by
+          have := hinv u
+          unfold PcOK at this
+          rw [hprog] at this
+          exact this
+        have g := opStep_good hF hpc hop
+        split at h
+        · cases h; exact g.frame
+        · cases h; exact g.frame
+        · rename_i hnext; exact absurd hnext g.notrap
+
 end RotoV.ListConc
